@@ -41,6 +41,9 @@ type FuzzCase struct {
 	Subs    []string            `json:"subs,omitempty"`
 	// ReadJSON: the frames are drained with ReadJSON.
 	ReadJSON bool `json:"read_json,omitempty"`
+	// ManyFrames > 0: Data is generated as one text message of that many empty
+	// continuation frames (every fourth followed by an empty pong).
+	ManyFrames int `json:"many_frames,omitempty"`
 }
 
 const c07AllocBase = 4 << 20
@@ -92,6 +95,23 @@ func checkC07(c FuzzCase, o *Obs) error {
 func fuzzFrames(c FuzzCase) (bool, error) {
 	tr := xport.NewScriptConn(nil, nil)
 	tr.NoLog = true
+	if c.ManyFrames > 0 {
+		masked := c.Server
+		d := wsref.AppendFrame(nil, wsref.Frame{Opcode: wsref.OpText, Masked: masked, Key: [4]byte{1, 2, 3, 4}, Payload: []byte("x")})
+		for i := 0; i < c.ManyFrames; i++ {
+			d = wsref.AppendFrame(d, wsref.Frame{Opcode: 0, Masked: masked, Key: [4]byte{byte(i), 2, 3, 4}})
+			if i%4 == 3 {
+				d = wsref.AppendFrame(d, wsref.Frame{Fin: true, Opcode: wsref.OpPong, Masked: masked, Key: [4]byte{9, 9, 9, byte(i)}})
+			}
+		}
+		c.Data = wsref.AppendFrame(d, wsref.Frame{Fin: true, Opcode: 0, Masked: masked, Key: [4]byte{4, 3, 2, 1}, Payload: []byte("y")})
+		tr.TrackDepth = true
+		defer func() {
+			if tr.MaxDepth >= 400 {
+				observe("frames: the transport was read from a call stack %d frames deep while a message of %d empty fragments was received: the depth grows with the number of frames (unbounded recursion; a long enough message exhausts the stack)", tr.MaxDepth, c.ManyFrames)
+			}
+		}()
+	}
 	var conn *websocket.Conn
 	var err error
 	if c.Server && c.PreBuf > 0 && len(c.Data) > 0 {
@@ -121,6 +141,12 @@ func fuzzFrames(c FuzzCase) (bool, error) {
 	if c.Limit > 0 {
 		conn.SetReadLimit(c.Limit)
 	}
+	tr.WritesNoDeadline = 0 // the handshake is over; from here on the library writes only replies
+	defer func() {
+		if tr.WritesNoDeadline > 0 {
+			observe("frames: %d automatic replies (pong, close) were written with no write deadline armed: a peer that sends them and never reads blocks the reading application for ever", tr.WritesNoDeadline)
+		}
+	}()
 	accepted := 0
 	maxIter := len(c.Data)/2 + 8
 	for i := 0; ; i++ {
@@ -493,7 +519,15 @@ func genFuzzCase(t *rapid.T) FuzzCase {
 		if c.ReadJSON && rapid.IntRange(0, 2).Draw(t, "jsonstream") > 0 {
 			rawKind = 99
 		}
+		if rapid.IntRange(0, 24).Draw(t, "manyframes") == 0 {
+			rawKind = 98
+		}
 		switch rawKind {
+		case 98:
+			// one message of very many empty fragments (optionally with empty pongs
+			// in between): a few bytes per frame, no payload at all
+			c.ManyFrames = rapid.SampledFrom([]int{3000, 20000}).Draw(t, "nframes")
+			c.ReadJSON, c.Limit, c.PreBuf = false, 0, 0
 		case 99:
 			// text messages holding JSON documents, well-formed or not
 			var st Stream
